@@ -120,6 +120,8 @@ class Par:
             return obj.eta_function(self.tau)
         if method == "correlation_2d_integral":
             return obj.correlation_2d_integral(self.delta, self.tau)
+        if method == "j_value":
+            return obj.j_function(self.w)
         if method == "attribute":
             return None
         raise KeyError(method)
@@ -678,6 +680,165 @@ def _quiet():
     return contextlib.redirect_stdout(io.StringIO())
 
 
+def _same_list(label, got, exp, key):
+    """two lists of scalars / arrays: same length (concrete fact) and same values (solver)"""
+    obs = [Ob.holds(label + ": length", len(got) == len(exp), key=key)]
+    if len(got) == len(exp):
+        for i, (a, b) in enumerate(zip(got, exp)):
+            obs.append(Ob.eq(label + ": entry %d" % i, a, b, key=key))
+    return obs
+
+
+_SYS_ENV = {"extra": {"oqupy.system.float": bs.bs_float, "oqupy.system.complex": bs.bs_complex,
+                      "oqupy.system.np": None, "oqupy.system.expm": lambda m: m}}
+
+
+def _sys_env():
+    from vf.env import NpProxy
+    e = {"extra": dict(_SYS_ENV["extra"])}
+    e["extra"]["oqupy.system.np"] = NpProxy({"vectorize": lambda f, *a, **kw: f})
+    return e
+
+
+class H3ctor(Case):
+    """constructor arguments are not kept by reference: build the object, THEN mutate the caller's
+    containers / arrays (element assignment incl. in-place array writes, append, pop) before the object is
+    used for the first time (liouvillian is evaluated lazily); every answer == object built from copies.
+    Copy-vs-reference is a concrete structural fact of the run; the solver decides the value equalities
+    (symbolic Hamiltonians, rates, Lindblad operators, d = 2)."""
+    functions = ("system.System.__init__", "system.TimeDependentSystem.__init__", "system.TimeDependentSystemWithField.__init__",
+                 "system.ParameterizedSystem.__init__", "system.MeanFieldSystem.__init__", "system.SystemChain.add_*",
+                 "system._check_gammas_lindblad_operators", "system._check_tdependent_gammas_lindblad_operators")
+    stubs = ("scipy.linalg.expm in oqupy.system -> placeholder applied alike to both objects (congruence only)",
+             "np.vectorize in oqupy.system -> the function itself (scalar calls only)")
+
+    def __init__(self, cls, mutation):
+        self.cls, self.mutation = cls, mutation
+        self.id = "H3/ctor_alias_%s_%s" % (cls, mutation)
+        self.bounds = {"class": cls, "mutation": mutation, "d": 2, "dissipators": 2}
+        self.env = _sys_env()
+
+    # mutate the caller's containers
+    def _mutate(self, inp, H, g, ops, new_g, new_op):
+        m = self.mutation
+        if m == "assign":
+            if isinstance(H, np.ndarray):
+                H[...] = inp.arr("Hother", H.shape, cplx=True)
+            g[0] = new_g
+            if isinstance(ops[0], np.ndarray):
+                ops[0][...] = inp.arr("Lother", ops[0].shape, cplx=True)   # array inside the list, in place
+            ops[1] = new_op                                              # list element replaced
+        elif m == "append":
+            g.append(new_g)
+            ops.append(new_op)
+        else:
+            g.pop()
+            ops.pop()
+
+    def run(self, inp):
+        d, cls = 2, self.cls
+        t = 0.25
+        if cls == "chain":
+            return self._chain(inp)
+        Hs = [inp.arr("H%d" % i, (d, d), cplx=True) for i in range(2)]
+        Ls = [inp.arr("L%d" % i, (d, d), cplx=True) for i in range(3)]
+        gs = [inp.real("g%d" % i, lo=0, hi=2) for i in range(3)]
+        obs = []
+        if cls == "system":
+            H = Hs[0].copy()
+            g, ops = [gs[0], gs[1]], [Ls[0].copy(), Ls[1].copy()]
+            obj = oqupy.System(H, gammas=g, lindblad_operators=ops)
+            ref = oqupy.System(Hs[0].copy(), gammas=[gs[0], gs[1]], lindblad_operators=[Ls[0].copy(), Ls[1].copy()])
+            self._mutate(inp, H, g, ops, gs[2], Ls[2].copy())
+            obs.append(Ob.eq("liouvillian() (first use after the mutation) == object built from copies", obj.liouvillian(), ref.liouvillian(), key="ctor_args"))
+            obs.append(Ob.eq("hamiltonian", obj.hamiltonian, ref.hamiltonian, key="ctor_args"))
+            obs += _same_list("gammas", obj.gammas, ref.gammas, "ctor_args")
+            obs += _same_list("lindblad_operators", obj.lindblad_operators, ref.lindblad_operators, "ctor_args")
+            pa, pb = obj.get_propagators(0.125, 0.0, None, 1e-6)(0), ref.get_propagators(0.125, 0.0, None, 1e-6)(0)
+            obs.append(Ob.eq("get_propagators", pa[0], pb[0], key="ctor_args"))
+            return obs
+        # systems given by callables
+        if cls == "parameterized":
+            mkH = lambda i: (lambda x: Hs[i] * x)
+            mkg = lambda i: (lambda x: gs[i] * x)
+            mkL = lambda i: (lambda x: Ls[i] * x)
+            build = lambda h, g, o: oqupy.ParameterizedSystem(h, gammas=g, lindblad_operators=o)
+            liou = lambda o: o.liouvillian(0.75)
+        elif cls == "tdsystem":
+            mkH = lambda i: (lambda tt: Hs[i] * tt)
+            mkg = lambda i: (lambda tt: gs[i] * tt)
+            mkL = lambda i: (lambda tt: Ls[i] * tt)
+            build = lambda h, g, o: oqupy.TimeDependentSystem(h, gammas=g, lindblad_operators=o)
+            liou = lambda o: o.liouvillian(t)
+        else:   # tdsystem_field / meanfield
+            mkH = lambda i: (lambda tt, a: Hs[i] * tt + Hs[1 - i] * (a + np.conj(a)))
+            mkg = lambda i: (lambda tt: gs[i] * tt)
+            mkL = lambda i: (lambda tt: Ls[i] * tt)
+            build = lambda h, g, o: oqupy.TimeDependentSystemWithField(h, gammas=g, lindblad_operators=o)
+            liou = lambda o: o.liouvillian(0.0, t, 0.5 + 0.25j, 0.125 - 0.5j)
+        if cls == "meanfield":
+            s0 = build(mkH(0), [mkg(0)], [mkL(0)])
+            s1 = build(mkH(1), [mkg(1)], [mkL(1)])
+            lst = [s0, s1] if self.mutation == "pop" else [s0]
+            n0 = len(lst)
+            eom = lambda tt, states, field: -1j * field
+            mfs = oqupy.MeanFieldSystem(lst, field_eom=eom)
+            before = [liou(x) for x in lst]
+            if self.mutation == "assign":
+                lst[0] = s1
+            elif self.mutation == "append":
+                lst.append(s1)
+            else:
+                lst.pop()
+            got = mfs.system_list
+            obs.append(Ob.holds("system_list: length as at construction", len(got) == n0, key="ctor_args"))
+            for i in range(min(n0, len(got))):
+                obs.append(Ob.eq("system_list[%d] answers as at construction" % i, liou(got[i]), before[i], key="ctor_args"))
+            return obs
+        g, ops = [mkg(0), mkg(1)], [mkL(0), mkL(1)]
+        obj = build(mkH(0), g, ops)
+        ref = build(mkH(0), [mkg(0), mkg(1)], [mkL(0), mkL(1)])
+        self._mutate(inp, None, g, ops, mkg(2), mkL(2))
+        obs.append(Ob.eq("liouvillian (first use after the mutation) == object built from copies", liou(obj), liou(ref), key="ctor_args"))
+        obs.append(Ob.holds("gammas: length", len(obj.gammas) == len(ref.gammas), key="ctor_args"))
+        obs.append(Ob.holds("lindblad_operators: length", len(obj.lindblad_operators) == len(ref.lindblad_operators), key="ctor_args"))
+        if cls == "parameterized":
+            par = np.array([[0.75], [0.5]])
+            pa, pb = obj.get_propagators(0.125, par)(0), ref.get_propagators(0.125, par)(0)
+            obs += [Ob.eq("get_propagators first half", pa[0], pb[0], key="ctor_args"), Ob.eq("get_propagators second half", pa[1], pb[1], key="ctor_args")]
+        return obs
+
+    def _chain(self, inp):
+        arrs = {"h": inp.arr("h", (2, 2), cplx=True), "l": inp.arr("l", (4, 4), cplx=True), "a": inp.arr("a", (2, 2), cplx=True),
+                "hl": inp.arr("hl", (2, 2), cplx=True), "hr": inp.arr("hr", (2, 2), cplx=True), "al": inp.arr("al", (2, 2), cplx=True),
+                "ar": inp.arr("ar", (2, 2), cplx=True)}
+        lnn = inp.arr("lnn", (16, 16))
+        gam = inp.real("gam", lo=0, hi=2)
+
+        def mk(src, nn):
+            ch = oqupy.SystemChain([2, 2])
+            ch.add_site_hamiltonian(0, src["h"])
+            ch.add_site_liouvillian(1, src["l"])
+            ch.add_site_dissipation(0, src["a"], gam)
+            ch.add_nn_hamiltonian(0, src["hl"], src["hr"])
+            ch.add_nn_liouvillian(0, nn)
+            ch.add_nn_dissipation(0, src["al"], src["ar"], gam)
+            return ch
+        mine = {k: v.copy() for k, v in arrs.items()}
+        mynn = lnn.copy()
+        ch = mk(mine, mynn)
+        ref = mk({k: v.copy() for k, v in arrs.items()}, lnn.copy())
+        for k, v in mine.items():
+            v[...] = inp.arr("o" + k, v.shape, cplx=True)
+        mynn[...] = mynn * 0 + 3
+        obs = []
+        for i in range(2):
+            obs.append(Ob.eq("site liouvillian %d" % i, ch.site_liouvillians[i], ref.site_liouvillians[i], key="ctor_args"))
+        obs.append(Ob.eq("nn liouvillian", ch.nn_liouvillians[0], ref.nn_liouvillians[0], key="ctor_args"))
+        obs.append(Ob.eq("full nn liouvillian", ch.get_nn_full_liouvillians()[0], ref.get_nn_full_liouvillians()[0], key="ctor_args"))
+        return obs
+
+
 class H4ctl(Case):
     """Control.get_controls / ChainControl.get_single_site_controls are queries: asking twice (or using the
     object in two computations) gives the same answer as a fresh equal object, and what the query handed
@@ -910,13 +1071,19 @@ def cases(tier):
     cs = []
     # H1
     methods = ("spectral_density", "correlation", "eta_function", "correlation_2d_integral")
-    quick_h1 = [("sd", "temperature"), ("sd", "cutoff"), ("pl", "alpha"), ("pl", "zeta")]
-    all_h1 = quick_h1 + [("sd", "j_function"), ("sd", "cutoff_type"), ("pl", "temperature"), ("pl", "cutoff")]
-    for cls, attr in (all_h1 if th else quick_h1):
-        for m in methods:
-            if not th and m == "correlation_2d_integral" and (cls, attr) != ("sd", "temperature"):
-                continue
-            cs.append(H1(cls, attr, m))
+    # live (non-memoised) public methods x EVERY public attribute update, both classes, in every tier;
+    # keys H1/live_* are never covered by the memo_* / bath_closure_* known-finding keys
+    sd_attrs = ("temperature", "cutoff", "cutoff_type", "j_function")
+    pl_attrs = ("temperature", "cutoff", "cutoff_type", "alpha", "zeta")
+    for cls, attrs in (("sd", sd_attrs), ("pl", pl_attrs)):
+        for attr in attrs:
+            for m in ("spectral_density", "correlation", "j_value"):
+                cs.append(H1(cls, attr, m))
+    quick_memo = [("sd", "temperature", "eta_function"), ("sd", "temperature", "correlation_2d_integral"), ("sd", "cutoff", "eta_function"),
+                  ("pl", "alpha", "eta_function"), ("pl", "zeta", "eta_function")]
+    if th:
+        quick_memo = [(c, a, m) for c, attrs in (("sd", sd_attrs), ("pl", pl_attrs)) for a in attrs for m in MEMO]
+    cs += [H1(*x) for x in quick_memo]
     cs += [H1cc("correlation"), H1cc("correlation_2d_integral"), H1sys(), H1stable("sd"), H1stable("pl")]
     cs += [H1args("sd", "eta_function"), H1args("pl", "correlation_2d_integral")]
     if th:
@@ -941,6 +1108,9 @@ def cases(tier):
     cs += [H3tempo("C", alias=True), H3ctrl_alias()]
     cs += [H3rec(v) for v in ("dynamics_ctor", "dynamics_add", "meanfield_add", "compute_dynamics_nopt", "compute_dynamics_pt")]
     cs += [H4ctl("control"), H4ctl("chain_control"), H4tebd(1)]
+    for cls in ("system", "tdsystem", "tdsystem_field", "parameterized", "meanfield"):
+        cs += [H3ctor(cls, m) for m in ("assign", "append", "pop")]
+    cs.append(H3ctor("chain", "assign"))
     if th:
         cs += [H4ctl("control", 3), H4ctl("chain_control", 3), H4tebd(2)]
     # H4
